@@ -156,8 +156,8 @@ CLAIMED["C19"] = {
             "(cli_op2_sem) and is a VALID MOC of the wider index type at the maximum of the depths (cli_op2_valid, with promotion_table for the 16 / 32 / 64-bit widths); expressed in the common 64-bit index space the result depends only on the two input sets, not on the stored widths (cli_op2_width_independent); complement and degrade; "
             "convert and `from timestamp` rest on the re-exported C07 / C18 theorems. Tied to the code by driving the rebuilt `moc` binary: all width pairs x operations x output formats, all convert "
             "pairs, `from` on timestamps / time ranges / positions, and invalid inputs (exit status + message, never exit 101). The space-time variants (inter / union / minus on ST files, tfold, sfold) are driven too and judged point-wise by the C08 / C10 semantics. "
-            "Three defects repaired (todo!() panics; out-of-range depth panics; F-MOC FITS output narrowed with the Time thresholds), open findings recorded "
-            "(truncated FITS data accepted silently; unparsable `from` lines skipped silently; `op union` on ST files panics at the four sites of the streaming ST union). Partial: geometry sub-commands, filter/view/info are not driven.",
+            "Four defects repaired (todo!() panics; out-of-range depth panics; F-MOC FITS output narrowed with the Time thresholds; ST union panics of the tool), open findings recorded "
+            "(truncated FITS data accepted silently; unparsable `from` lines skipped silently); `op union` on ST files, which exited 101 at five panic sites of the streaming ST union, was repaired by going through hpxranges2d like inter / minus. Partial: geometry sub-commands, filter/view/info are not driven.",
     "design_ref": "DESIGN.md §4 C19, §10",
     "note": TB + "; clap argument parsing and cdshealpix hash outside the model",
     "technique": "Lean 4 proof (composition of the C01/C04 lazy-operator theorems with the width-conversion lemmas) + differential correspondence driving the real binary + exit-status checks on invalid inputs",
